@@ -263,7 +263,7 @@ func getUrl(_token Token, baseUrl string) (url pr.NamedString, attr pr.AttrData,
 	case pa.URL:
 		return parseURLToken(token.Value, baseUrl)
 	case pa.FunctionBlock:
-		if token.Name == "attr" {
+		if utils.AsciiLower(token.Name) == "attr" {
 			attr = checkAttrFunction(token, "url")
 			return
 		} else if L := len(token.Arguments); token.Name == "url" && (L == 1 || L == 2) {
@@ -452,7 +452,7 @@ func getString(_token Token) (out pr.ContentProperty) {
 	case pa.String:
 		return pr.ContentProperty{Type: "string", Content: pr.String(token.Value)}
 	case pa.FunctionBlock:
-		switch token.Name {
+		switch utils.AsciiLower(token.Name) {
 		case "attr":
 			attr := checkAttrFunction(token, "string")
 			if attr.IsNone() {
